@@ -96,7 +96,11 @@ func walk(data []byte, start, end int64, deep bool, parent *Box, depth int) ([]*
 		b.Parent = parent
 		b.Depth = depth
 		if deep && depth < 12 {
-			if co := childOffset(b.Type); co >= 0 && b.Payload()+co <= b.End() {
+			co := childOffset(b.Type)
+			if b.Type == "meta" && b.Payload()+8 <= b.End() && string(data[b.Payload()+4:b.Payload()+8]) == "hdlr" {
+				co = 0 // QuickTime-style meta: no version/flags word, the handler box comes first
+			}
+			if co >= 0 && b.Payload()+co <= b.End() {
 				ch, err := walk(data, b.Payload()+co, b.End(), deep, b, depth+1)
 				if err == nil {
 					b.Children = ch
@@ -191,6 +195,9 @@ func CheckSizes(data []byte) error {
 	}
 	for _, b := range Flatten(top) {
 		co := childOffset(b.Type)
+		if b.Type == "meta" && b.Payload()+8 <= b.End() && string(data[b.Payload()+4:b.Payload()+8]) == "hdlr" {
+			co = 0
+		}
 		if co < 0 {
 			continue
 		}
